@@ -12,6 +12,9 @@ from vf import env
 env.setup()
 
 
+VIEW_IMMUTABLE_PARAM_TYPES: list[str] = []
+
+
 def tranp_root() -> str:
 	from rogw.tranp.app.dir import tranp_dir
 	return tranp_dir()
@@ -32,8 +35,9 @@ def base_definitions(cache_dir: str, extra_source_dirs: list[str] | None = None,
 	root = tranp_root()
 
 	def make_renderer_setting(i18n, emitter):
-		return RendererSetting([os.path.join(root, 'data/cpp/template')], i18n.t, emitter,
-			{'immutable_param_types': ['std::string', 'std::vector', 'std::map', 'std::function']})
+		# parameters are passed by value (no immutable_param_types): `d[k]` on a `const std::map&` parameter does not compile,
+		# and by-value parameters are what "plain objects are C++ values" means for C01
+		return RendererSetting([os.path.join(root, 'data/cpp/template')], i18n.t, emitter, {'immutable_param_types': VIEW_IMMUTABLE_PARAM_TYPES})
 
 	make_renderer_setting.__annotations__ = {'i18n': __import__('rogw.tranp.i18n.i18n', fromlist=['I18n']).I18n, 'emitter': RendererEmitter, 'return': RendererSetting}
 
